@@ -123,3 +123,18 @@ _p('C14', ['r_gates', 'r_features'],
    'ModuleProducers::field for replace-by-name, Module::parse (MIR) for a single non-loop add_processed_by and a single, '
    'last, non-loop on_parse call; the wasmparser feature set is extracted and compared with the property.',
    not_decided='that the bytes of the producers/name sections written by wasm-encoder are what the fields say (trusted)')
+
+_p('C05', ['r_validate', 'r_features', 'r_table', 'r_norec'],
+   'Validation gate: Module::parse, LocalFunction::parse and parse_local_functions are evaluated with nothing inlined; per '
+   'wasmparser::Payload variant / per operator / per locals group the in-crate handler must be preceded by the matching '
+   'wasmparser validator call on the same data with its error propagated; unsupported payloads must end in Err. '
+   'Completeness side: the feature set is extracted and every operator of an enabled proposal must have a non-panicking '
+   'decode arm (R-TABLE); no call cycle is reachable from parse (R-NOREC), so nesting depth cannot grow the call stack.',
+   not_decided='termination / absence of hangs (bounded by input length, argued not checked); exactness of wasmparser itself; '
+               'panics inside wasmparser/gimli')
+_p('C02', ['r_emitorder', 'r_edges', 'r_visit', 'r_norec'],
+   'No referenced entity is left without an emitted index: emit steps are ordered so that every index space is assigned '
+   'before it is looked up (R-EMITORDER, from the MIR of emit_wasm and the instance-level call graph); the GC closure '
+   'follows every id-typed field (R-EDGES) and every instruction operand (R-VISIT), so whatever a kept item refers to is '
+   'kept and therefore indexed; no recursion is reachable from emit (R-NOREC).',
+   not_decided='acceptance of the output by an independent validator; panics behind API misuse (ids of deleted items)')
